@@ -346,7 +346,8 @@ L_REGS = ['hue', 'saturation', 'brightness', 'kelvin', 'duration', 'time',
           'red', 'green', 'blue']
 L_OPS = ['+', '-', '*', '/', '%', '^', '<', '<=', '>', '>=', '==', '!=',
          'and', 'or']
-L_PRELUDE = ('define m 5 assign a 1 assign b 2 assign c "A" '
+L_PRELUDE = ('define m 5 define tp 6:30 define sm "A" '
+             'assign a 1 assign b 2 assign c "A" '
              'define f with p q begin return { p + q } end '
              'define g begin wait end define h with p begin if p return 1 '
              'return 0 end '
@@ -360,7 +361,7 @@ def _l_atom(draw, depth):
         return [draw(st.sampled_from(['0', '1', '2', '3.5', '100', '65535',
                                       '7', '0.25']))]
     if kind == 2:
-        return [draw(st.sampled_from(L_VARS + ['m']))]
+        return [draw(st.sampled_from(L_VARS + ['m', 'm', 'tp', 'sm']))]
     if kind == 3:
         return [draw(st.sampled_from(L_REGS))]
     if kind == 4:
